@@ -22,7 +22,7 @@ EXPLANATION = (
 ASSUMPTIONS = ["std::atomic<thread_state>::compare_exchange_strong is atomic", "work_items_/new_tasks_/terminated_items_ deliver each pushed element to one pop (C17)",
                "on_start_thread runs on the owning worker before the pool's start-up barrier releases any work (reserve() calls exempt from R6)"]
 THOROUGH_CONFIGS = [["-UNDEBUG", "-DPIKA_DEBUG"], ["-DPIKA_HAVE_THREAD_QUEUE_WAITTIME"]]
-FLOORS = {"C01.R1": 8, "C01.R2": 6, "C01.R3": 8, "C01.R4": 24, "C01.R5": 12, "C01.R6": 10, "C01.R7": 9, "C01.R8": 2, "C01.R9": 1}
+FLOORS = {"C01.R1": 8, "C01.R2": 6, "C01.R3": 8, "C01.R4": 24, "C01.R5": 12, "C01.R6": 10, "C01.R7": 9, "C01.R8": 2, "C01.R9": 1, "C01.R10": 6}
 
 TSS = "pika::threads::detail::thread_schedule_state"
 TD = "pika::threads::detail::thread_data"
@@ -376,3 +376,10 @@ def run(rep, tier):
                     rep.ok("C01.R7", fn, "exactly one per-queue enqueue on every non-throwing path")
                 else:
                     rep.bad("C01.R7", fn, fn.loc, "enqueue-count", "%s::%s enqueues %s times depending on the path (priority/hint branch): the task is dropped or queued twice" % (sched, m, sorted(cf.exits)))
+
+    # ---- R10: a task that is resumed while still 'active' is not dropped (the same rules decide C02)
+    from .common import import_rules
+    import_rules(rep, tier, "C02", ("C02.R3", "C02.R4"), "C01.R10",
+                 "K7/K3 (shared with C02.R3/R4): set_thread_state on an 'active' target schedules the set_active_state helper or retries; "
+                 "the helper aborts only when the tag changed - otherwise a resumed task is never queued again (its body never completes)")
+
